@@ -272,6 +272,20 @@ def schemas(prog, ctx):
                 lo_i, hi_i = int(sp.simplify(lo_)), int(sp.simplify(hi_))
                 vals = [g_.xreplace({v_: sp.Integer(k_)}) for k_ in range(lo_i, hi_i + 1)]
                 t = t.xreplace({x_: (sp.Max if x_.func.__name__ == 'MAXRED' else sp.Min)(*vals) if vals else (-sp.oo if x_.func.__name__ == 'MAXRED' else sp.oo)})
+            # *max_element / *min_element over a row: MAXEL(arr:this.components(i), lo, len:this.components(i))
+            for _ in range(8):
+                els = [x_ for x_ in t.atoms(AU) if x_.func.__name__ in ('MAXEL', 'MINEL') and isinstance(x_.args[0], AU)
+                       and x_.args[0].func.__name__ == 'arr:this.components' and all(a_.is_Integer for a_ in x_.args[0].args)]
+                if not els:
+                    break
+                x_ = els[0]
+                ri_ = int(x_.args[0].args[0])
+                lo_i = int(sp.simplify(x_.args[1]))
+                hi_t = x_.args[2].replace(lambda e_: isinstance(e_, AU) and e_.func.__name__ == 'len:this.components', lambda e_: sp.Integer(c_))
+                hi_i = int(sp.simplify(hi_t))
+                vals = [Function('this.components', real=True)(sp.Integer(ri_), sp.Integer(k_)) for k_ in range(lo_i, hi_i)]
+                t = t.xreplace({x_: (sp.Max if x_.func.__name__ == 'MAXEL' else sp.Min)(*vals)})
+            t = t.replace(lambda e_: isinstance(e_, AU) and e_.func.__name__ == 'len:this.components', lambda e_: sp.Integer(c_))
             t = t.doit()
             t = t.replace(lambda e_: isinstance(e_, AU) and e_.func.__name__ == 'this.components' and all(a_.is_Integer for a_ in e_.args),
                           lambda e_: sp.Integer(entries[tuple(int(a_) for a_ in e_.args)]) if tuple(int(a_) for a_ in e_.args) in entries else e_)
